@@ -2,6 +2,7 @@ package workceptor
 
 import (
 	"os"
+	"time"
 
 	"github.com/ansible/receptor/internal/verifapi"
 )
@@ -185,4 +186,41 @@ func Verif_C04_status_query_does_not_block() {
 		verifapi.Assert("unknown-unit-reported", err != nil)
 	}
 	verifapi.Assert("no-lock-left-held", verifapi.HeldLocks() == 0)
+}
+
+// Verif_C04_remote_unit_followed_after_restart: a remote unit that had been started on the remote node
+// is found at restart in any state, with its output completely or only partly copied: unless it is
+// finished AND all recorded output is stored locally, the daemon goes back to the remote node (it
+// dials it) to follow the unit to completion / fetch the rest of the output.
+func Verif_C04_remote_unit_followed_after_restart() {
+	dir := verifapi.TempDir()
+	udir := dir + "/A/unit0024"
+	verifapi.Assert("mkdir", osMkdirAll(udir) == nil)
+	state := []int{WorkStateRunning, WorkStateSucceeded, WorkStateFailed}[verifapi.Choose(3)]
+	recorded := int64(6)
+	stored := []int{0, 3, 6}[verifapi.Choose(3)]
+	rec := &StatusFileData{State: state, Detail: "d", StdoutSize: recorded, WorkType: "remote",
+		ExtraData: &RemoteExtraData{RemoteNode: "R", RemoteWorkType: "echo", RemoteUnitID: "rem1", RemoteStarted: true, RemoteParams: map[string]string{}}}
+	verifapi.Assert("record-saved", rec.Save(udir+"/status") == nil)
+	verifapi.Assert("stdout-stored", os.WriteFile(udir+"/stdout", make([]byte, stored), 0o600) == nil)
+	verifapi.Reboot()
+	wk := verifWorkceptor(dir)
+	wk.w.scanForUnits()
+	for i := 0; i < 3; i++ {
+		verifapi.Quiesce()
+		verifapi.AdvanceTime(time.Second)
+	}
+	verifapi.Quiesce()
+	st, err := wk.w.UnitStatus("unit0024")
+	verifapi.Cover("restarted")
+	verifapi.Assert("remote-unit-listed-with-binding", verifapi.All(err == nil, st != nil, st.WorkType == "remote"))
+	red, _ := st.ExtraData.(*RemoteExtraData)
+	verifapi.Assert("remote-binding-kept", verifapi.All(red != nil, red.RemoteNode == "R", red.RemoteUnitID == "rem1"))
+	complete := IsComplete(state) && int64(stored) >= recorded
+	if !complete {
+		verifapi.Cover("must-be-followed")
+		verifapi.Assert("unfinished-remote-unit-is-followed-after-restart", *wk.nc.dials >= 1)
+	}
+	wk.cancel()
+	verifapi.Quiesce()
 }
